@@ -179,8 +179,22 @@ def check_builder(ctx: Check, tree: Tree, te: TermEval) -> None:
                 None if ok else {"builder": repr(edbw)[:200], "function": repr(want)[:200]})
     # __call__ multiplies form factor and expression; flags select the paths
     call = cls.methods["__call__"]
+    crd = RD(call.node)
     txt = unparse(call.node)
-    ok = "form_factor * expr" in txt or "expr * form_factor" in txt
+    ok = False
+    for r in [n for n in walk_function(call.node) if isinstance(n, ast.Return) and isinstance(n.value, ast.Tuple)]:
+        first = r.value.elts[0]
+        if isinstance(first, ast.BinOp) and isinstance(first.op, ast.Mult):
+            srcs = set()
+            for side in (first.left, first.right):
+                for d in crd.closure(crd.uses(side)):
+                    if d.value is not None:
+                        t = unparse(d.value)
+                        for nm in ("__create_form_factor", "__energy_dependent_breit_wigner", "__simple_breit_wigner"):
+                            if nm in t:
+                                srcs.add(nm)
+            if {"__create_form_factor", "__energy_dependent_breit_wigner", "__simple_breit_wigner"} <= srcs:
+                ok = True
     ok = ok and "if self.energy_dependent_width:" in txt and "if self.form_factor:" in txt
     ctx.verdict(ok, "R-TERM", f"{cls.qual}.__call__::composition", tree.loc(call.node), "__call__: energy_dependent_width selects the BW, form_factor multiplies the form factor onto it")
     # convenience builders
